@@ -534,3 +534,56 @@ Definition exit_moments (vs : list var) (p : prog) (ms : list mono) (N : nat) : 
   exit_moments_aux vs p ms (compact vs (exec_block no_law (p_init p) st0)) N.
 Definition exit_moments_plain (p : prog) (ms : list mono) (N : nat) : list (list (Z * positive)) :=
   map (fun n => exit_row p ms (run no_law p n st0)) (seq 0 (S N)).
+
+(* ------------------------------------------------------------------------------------ *)
+(* The guard Polar conditions on.  LoopGuardTransformer turns `while G: B` into
+   `while true: if G & C: B' end` where C collects the conditions of first-level single-branch
+   ifs of B (_collapse_first_level_ifs); the combined condition is the one marked
+   is_loop_guard, and ConditionsNormalizer takes program.original_loop_guard from the first
+   marked condition (get_loop_guard).  [stored_guard] is that condition. *)
+Definition and_simpl (c1 c2 : cond) : cond :=
+  match c1, c2 with
+  | CTrue, _ => c2
+  | _, CTrue => c1
+  | _, _ => CAnd c1 c2
+  end.
+Fixpoint collapsed_cond (fuel : nat) (b : block) : cond :=
+  match fuel with
+  | O => CTrue
+  | S fuel' =>
+      match b with
+      | BCons (SIf (BrCons c br BrNil) BNil) BNil => and_simpl (collapsed_cond fuel' br) c
+      | _ => CTrue
+      end
+  end.
+Definition stored_guard (fuel : nat) (p : prog) : cond := and_simpl (p_guard p) (collapsed_cond fuel (p_body p)).
+Definition collapse_free (fuel : nat) (p : prog) : Prop := collapsed_cond fuel (p_body p) = CTrue.
+
+Lemma holds_and_simpl c1 c2 s : holds (and_simpl c1 c2) s = holds c1 s && holds c2 s.
+Proof. destruct c1, c2; simpl; try reflexivity; rewrite ?andb_true_r; reflexivity. Qed.
+
+Theorem stored_guard_collapse_free fuel p s :
+  collapse_free fuel p -> holds (stored_guard fuel p) s = holds (p_guard p) s.
+Proof.
+  unfold collapse_free, stored_guard. intros H. rewrite holds_and_simpl, H. cbn [holds]. apply andb_true_r.
+Qed.
+
+(* the stored guard implies the source guard, so the event Polar conditions on CONTAINS the
+   termination event; it is strictly larger exactly on the states G & not C *)
+Theorem stored_guard_weaker fuel p s :
+  stopped p s = true -> negb (holds (stored_guard fuel p) s) = true.
+Proof.
+  unfold stopped, stored_guard. rewrite holds_and_simpl. intros H. apply negb_true_iff in H. rewrite H. reflexivity.
+Qed.
+
+Local Open Scope string_scope.
+(* the witness of DESIGN section 6 (#10):
+     x = 0; c = Bernoulli(1/2); while x == 0: if c == 1: x = Bernoulli(1/2) end end *)
+Definition collapse_witness : prog :=
+  {| p_init := BCons (SAssign "x" (RDet (EConst (mkq 0 1)))) (BCons (SAssign "c" (RDraw (DBern (EConst (mkq 1 2))))) BNil);
+     p_guard := CAtom (EVar "x") Ceq (EConst (mkq 0 1));
+     p_body := BCons (SIf (BrCons (CAtom (EVar "c") Ceq (EConst (mkq 1 1)))
+                                  (BCons (SAssign "x" (RDraw (DBern (EConst (mkq 1 2))))) BNil) BrNil) BNil) BNil |}.
+
+Definition cond_x_given (ev : state -> bool) (n : nat) : Qc :=
+  cond_exp (run no_law collapse_witness n st0) ev (fun s => s "x").
